@@ -372,7 +372,7 @@ func c02Small(c *Ctx, po bool, N int, ringQ, ringP *ring.Ring, ch c02Chain) {
 
 // ---- the decomposition as the key-switch calls it when there is no P ------------------------------------
 
-// c02KeySwitchNoP: rlwe.Evaluator.gadgetProductSinglePAndBitDecompLazy calls
+// c02KeySwitchNoP: rlwe.Evaluator.gadgetProductSinglePAndBitDecompLazy called (before fix 3f60e57)
 // DecomposeAndSplit(levelQ, levelP, levelP+1, i, …); with no special modulus (levelP = -1) and no
 // power-of-two decomposition this is nbPi = 0, so lvlQStart = i·0 = 0 for every digit i.
 func c02KeySwitchNoP(c *Ctx) {
